@@ -4,7 +4,7 @@
 id=$1; place=$2; run=$3; chk=$4; tier=${5:-quick}; phase=${6:-all}
 wt=/tmp/seedwt_$id; sd=$wt/SEED
 [ -f $sd/patch.diff ] || { echo "no patch in $sd"; exit 2; }
-dest=/verif/seeded/$id; mkdir -p $dest; cp $sd/patch.diff $sd/meta.json $dest/ 2>/dev/null; cp $sd/demo_test.go $dest/ 2>/dev/null; cp $sd/demo.md $dest/ 2>/dev/null
+dest=/verif/seeded/${DEST:-$id}; mkdir -p $dest; cp $sd/patch.diff $sd/meta.json $dest/ 2>/dev/null; cp $sd/demo_test.go $dest/ 2>/dev/null; cp $sd/demo.md $dest/ 2>/dev/null
 export GOFLAGS=-mod=mod GOPROXY=off
 if [ "$phase" != check ] && [ "$run" != "-" ]; then
   cd $wt && git checkout -q -- . && git clean -fdq -e SEED
